@@ -216,14 +216,18 @@ CHECKS['C01'] = dict(
     text='The component formulas of all dimension-specific classes ({Grad,Curl,Rot,Div,Laplace,Hessian,Bracket}_{1,2,3}d, '
          'their Logical variants, {Dot,Cross,Inner}_{1,2,3}d) are regenerated from the current source on every run by '
          'executing the real classes on generic atoms (Gen/Leaf.lean), and for each well-typed entry a Lean theorem '
-         '(Gen/LeafThms.lean, leaf_<Class>_<sig>, 68 theorems) proves that the formula equals the classical component '
+         '(Gen/LeafThms.lean, leaf_<Class>_<sig>, 92 theorems, collected in the indexed statement leaf_index) proves that the formula equals the classical component '
          'definition (Sem/DenG.lean) in every differential ring, i.e. for all smooth functions and points; fragment_total '
          'proves that no entry of the supported fragment is missing or raises. The recursive dispatcher of '
          'TerminalExpr.eval is modelled (Model/Lower.lean, using the generated table) and tied to the code by a '
          'differential run on random well-typed trees in dimensions 1-3 on mapped and unmapped domains; an independent '
          'oracle compares the lowered expression, instantiated with explicit functions, with the classical definition. '
-         'The induction lower_sound over all trees is not yet proved (growth item): the for-all-trees part rests on the '
-         'correspondence.',
+         'lower_sound (Props/C01.lean): for every well-typed tree of the fragment (atoms, n-ary sums, products with at most one '
+         'non-scalar factor, grad/div/laplace/hessian/curl/rot/dot/cross/inner/bracket nested to any depth), dimension 1-3, on '
+         'mapped and unmapped domains, whatever the dispatcher returns denotes the classical meaning of the tree, component by '
+         'component, in every differential ring; lower_shape, lower_total (d = 2, 3; lower_total_fails_1d is the proved '
+         'counterexample of the open 1-D finding). Powers, elementary functions and interface operators are outside the '
+         'theorem and covered by the correspondence.',
     note='Trusted: Lean kernel; the translator (generic execution yields the formula for every argument of that shape: '
          're-checked on compound arguments by the correspondence); classical definitions in Sem/DenG.lean with the repo '
          'convention (grad F)_ij = d_i F_j; sympy Matrix arithmetic is modelled (addV/mulV), not verified.',
@@ -235,7 +239,12 @@ CHECKS['C02'] = dict(
          'expression tree (sums, n-ary products with numeric / coordinate / function-bearing / non-commutative factors, '
          'integer, constant and variable powers) whatever the model of Grad.eval returns denotes the gradient of the '
          'argument (mutual structural induction, 4-way factor split, product and power rules incl. the log term); rule '
-         'identities curl_grad_zero, div_curl_zero, div_scalar_mul, grad_mul, laplace_mul valid for all argument trees. '
+         'identities curl_grad_zero, div_curl_zero, div_scalar_mul, grad_mul, laplace_mul valid for all argument trees; '
+         'Props/C02b.lean: the same soundness statement for the other constructors, each for all expressions — '
+         'linEval_sound_gen / rotEval_sound / hessianEval_sound, curlEval_sound, divEval_sound (div(fF) rule, div(a×b), '
+         'div curl = 0), laplaceEval_sound (product rule), bracketEval_sound, mkBilin_sound (Dot/Cross/Inner/Outer/Convect: '
+         'bilinear expansion, coefficients, cross(a,a) = 0) under explicit decidable typing side conditions (BilOK, LapOK, '
+         'DivOK, Scal) with non-vacuity examples; structural equality of trees is proved lawful (Lemmas/ExprEq.lean). '
          'All constructors (Dot/Cross/Inner/Outer/Convect, Grad/Curl/Rot/Div/Laplace/Hessian/Bracket, '
          'Jump/Avg/Minus/Plus/Dn) are modelled branch for branch (Model/Calc.lean) and tied to the code by a differential '
          'run on every constructor application of random programs, compared modulo ring axioms and (anti)symmetric '
@@ -275,6 +284,27 @@ CHECKS['C03'] = dict(
          'than the three rules are covered through route B (terminal form) and the oracle.',
     technique='Lean 4 proof (structural induction + polynomial identities) + differential correspondence',
     design='6/C03')
+
+CHECKS['C04'] = dict(
+    text='Lean 4 theorems on the model of the Integral branch of LogicalExpr.eval, of JacobianSymbol(mapping, axis) (column '
+         'deletion; the 1x1 identity on the end point of a 1-D patch) and of sqrt(det(JᵀJ)) (Model/IntegralMap.lean): in every '
+         'commutative ring the Gram determinant of the kept Jacobian columns is (det J)² on the interior of a 1-D, 2-D, 3-D '
+         'patch (detGram_domain1/2/3, gram_square2/3), the squared length of the tangent of the remaining direction on a face '
+         'of a 2-D patch (detGram_face2: the deleted column is the one of the axis), |t1×t2|² for the two remaining tangents on '
+         'a face of a 3-D patch and on a surface in R³ (detGram_face3, detGram_surface, Lagrange identity gram_cross); the '
+         'element squares to that determinant (element_sq) and is 1 on a 1-D end point; the transformed integral lives on the '
+         'same face (axis, side), its kernel is (transformed integrand)·(element of that region) (transform_spec) and has the '
+         'value of the physical integrand times the element (integral_kernel_sound, from C03 logical_sound); an integral over '
+         'several patches gives one integral per member, each transformed with the mapping of its own patch '
+         '(transformAll_length, transformAll_own_mapping). Tie: kernels of TerminalExpr(LogicalExpr(LinearForm, D), logical D) '
+         'on single patches (1-D/2-D/3-D; symbolic, polynomial ±orientation, catalogue and surface mappings; interior and every '
+         'face) and on 2-3 patch domains with different mappings per patch (whole domain and whole boundary), compared with the '
+         'model: region (patch, axis, side) exactly, kernel as a function of the atoms. Oracle: independent surface element from '
+         'the tangents of the restricted mapping (|t|, |t1×t2|, sqrt Gram), explicit fields, evaluated on the region.',
+    note='Trusted: Lean kernel; the change-of-variables theorem of analysis (the specification); x^(1/2) read as a square root; '
+         'numeric comparison at 50-120 digits. The integrand part is C03.',
+    technique='Lean 4 proof (polynomial identities + model of the integral transformation) + differential correspondence',
+    design='6/C04')
 
 CHECKS['C11'] = dict(
     text='Lean 4 theorems: the generic integrand assembled by Norm / SemiNorm for kinds l2, h1, h2 and scalar or vector '
@@ -363,16 +393,28 @@ CHECKS['C08'] = dict(
          'reject_sound_const / _power / _selfproduct / _selfproduct_deriv / _nonlinear_fn - for the integrand families '
          'c + u (c != 0), u^m (m >= 2), u*u, u*dx(u), f(u) the model verdict is False, proved through a refuting '
          'interpretation in the polynomial differential ring of Sem/Instances.lean (MvPolynomial over Q with formal '
-         'partial derivatives), which also witnesses that the DRing hypotheses of the project are satisfiable. Tied '
-         'to the code by a differential run of the two constructors on random candidate forms (linear ones, and '
+         'partial derivatives), which also witnesses that the DRing hypotheses of the project are satisfiable. '
+         'Product arguments and absent arguments: reject_sound_argfree - for any argument list and any sum of '
+         'integrals, one non-zero integral in which no component of the argument occurs gives verdict False (the '
+         'integrand is constant in the argument; no early exit), with the instances reject_sound_no_test_function, '
+         '_no_trial_function, _no_trial_function_in_one_integral; fresh_functions_distinct - different components of a '
+         'product argument, also of the same kind, are replaced by different fresh functions; '
+         'reject_sound_component_product / _component_difference / _difference_square / '
+         '_component_difference_bilinear - u1*u2, u1*(u1-u2), (v1-v2)^2, u1*(u1-u2)*v are rejected for all names; '
+         'shared_tag_accepts_nonlinear - the variant of the test with one tag for all arguments accepts u1*(u1-u2) and '
+         '(v1-v2)^2 (why the distinctness matters). Tied '
+         'to the code by a differential run of the two constructors on random candidate forms (argument groups '
+         's, v, sv, ss, sss, vv, ssv, svv on either side; linear ones incl. differences of same-kind components, and '
          'ones broken by a constant, power, self-product, sin/exp/sqrt, denominator, degree-one ratio, product of two '
-         'components of the argument list; 2D/3D, boundary terms, 1-2 arguments) and an oracle that decides '
-         'linearity independently by instantiating every function with rich explicit polynomials and testing joint '
-         'additivity and homogeneity at rational points; it flags false accepts, false rejects and stray exceptions.',
+         'components, edits that vanish when two same-kind components are identified, integrands or single integrals '
+         'without an argument group; 2D/3D, boundary terms) preceded on every seed by a fixed corpus of 66 forms, and '
+         'an oracle whose ground truth is known by construction and confirmed by instantiating every function (each '
+         'component separately) with rich explicit polynomials and testing joint additivity and homogeneity exactly '
+         'at rational points; it flags false accepts, false rejects and stray exceptions.',
     note='No defect found. Trusted: Lean kernel (+propext/Classical.choice/Quot.sound), harness and shared '
          'serialiser, harness/inst.py instantiation in the oracle, sympy expand modelled as ring normalisation with '
          'opaque atoms. degree_criterion / reject_sound_full (rejection of EVERY non-linear integrand) are stated as a '
-         'commented goal, not proved: outside the five families the exactness of rejections rests on the '
+         'commented goal, not proved: outside the listed families the exactness of rejections rests on the '
          'correspondence and the oracle. accept_sound outside the operator-free fragment is conditional on '
          'ReevalSound (gradEval_sound etc. of C02 discharge it per operator, not yet assembled).',
     technique='Lean 4 proof (structural induction, verified ring normaliser, refutation in a concrete polynomial differential ring) + differential correspondence',
